@@ -30,12 +30,16 @@ T = TypeVar("T", bound=Cell)
 
 def pickle_gridcell(obj):
     """Helper function for pickling GridCell instances."""
-    # we have the base class and the state via __getstate__
-    args = obj.__class__.__bases__[0], obj.__getstate__()
-    return unpickle_gridcell, args
+    # we have the base class and the state via __getstate__. The state is not passed as an
+    # argument of unpickle_gridcell: it refers back to the cell via the agents in it, so the new cell has
+    # to exist (and be memoized by pickle and deepcopy) before its state is copied. __getstate__ returns
+    # a tuple with dict and slots, but slots contains the dict and we do not carry it over.
+    _, slots = obj.__getstate__()
+    slots = {k: v for k, v in slots.items() if k != "__dict__"}
+    return unpickle_gridcell, (obj.__class__.__bases__[0],), (None, slots)
 
 
-def unpickle_gridcell(parent, fields):
+def unpickle_gridcell(parent, fields=None):
     """Helper function for unpickling GridCell instances."""
     # since the class is dynamically created, we recreate it here
     cell_klass = type(
@@ -43,16 +47,12 @@ def unpickle_gridcell(parent, fields):
         (parent,),
         {"_mesa_properties": set()},
     )
-    instance = cell_klass(
-        (0, 0)
-    )  # we use a default coordinate and overwrite it with the correct value next
-
-    # __gestate__ returns a tuple with dict and slots, but slots contains the dict so we can just use the
-    # second item only
-    for k, v in fields[1].items():
-        if k != "__dict__":
-            setattr(instance, k, v)
-
+    # the fields are set from the state afterwards
+    instance = cell_klass.__new__(cell_klass)
+    if fields is not None:  # pickles written when the state was still passed as an argument
+        for k, v in fields[1].items():
+            if k != "__dict__":
+                setattr(instance, k, v)
     return instance
 
 
